@@ -38,6 +38,13 @@ def isTimerObs : Obs → Bool
 /-- the timer observations of an output list -/
 def tobs (l : List Obs) : List Obs := l.filter isTimerObs
 
+@[simp] theorem tobs_nil : tobs [] = [] := rfl
+@[simp] theorem tobs_cons_arm (t ns : Nat) (l : List Obs) : tobs (.timerArm t ns :: l) = .timerArm t ns :: tobs l := rfl
+@[simp] theorem tobs_cons_destroy (t : Nat) (l : List Obs) : tobs (.timerDestroy t :: l) = .timerDestroy t :: tobs l := rfl
+@[simp] theorem tobs_cons_send (c : Nat) (j : Json) (b : Bool) (l : List Obs) : tobs (.send c j b :: l) = tobs l := rfl
+@[simp] theorem tobs_cons_closed (c : Nat) (l : List Obs) : tobs (.closed c :: l) = tobs l := rfl
+theorem tobs_append (l₁ l₂ : List Obs) : tobs (l₁ ++ l₂) = tobs l₁ ++ tobs l₂ := by simp [tobs]
+
 /-- Two contexts agree on everything the router looks at, and on the timer observations. -/
 structure Frame (x y : Ctx) : Prop where
   peers : y.st.peers.map pview = x.st.peers.map pview
@@ -83,7 +90,7 @@ theorem send'_out (x : Ctx) (c : Nat) (j : Json) : (send' x c j).out = Obs.send 
   send_out x c j
 
 @[simp] theorem tobs_send (x : Ctx) (c : Nat) (j : Json) : tobs (send x c j).1.out = tobs x.out := by
-  rw [send_out]; simp [tobs, isTimerObs]
+  rw [send_out]; rfl
 
 @[simp] theorem tobs_send' (x : Ctx) (c : Nat) (j : Json) : tobs (send' x c j).out = tobs x.out := tobs_send x c j
 
@@ -135,7 +142,7 @@ theorem findPeer_isSome_congr {ps qs : List Peer} (h : qs.map pview = ps.map pvi
     | cons a t ih =>
       simp only [findPeer, List.find?_cons, List.map_cons, List.contains_cons] at ih ⊢
       cases hac : a.conn == c
-      · simp only [Bool.false_eq_true, ↓reduceIte] at ih ⊢
+      · simp only [] at ih ⊢
         rw [ih]
         have : (c == a.conn) = false := by
           simp only [beq_eq_false_iff_ne, ne_eq] at hac ⊢; exact fun e => hac e.symm
